@@ -99,11 +99,11 @@ Proof. intros i H. exact (ksym_spec _ _ _ H). Qed.
 Lemma HKdata : forall w elems d e, In (NData w elems) ns -> In (d, e) elems -> flag (k_data K) d = true -> data_known e = true.
 Proof.
   intros w el d e Hn He H. unfold K, known_info in H. cbn [k_data] in H.
-  rewrite (kdata_spec ns (proj2 (proj2 Hcanon)) w el d e Hn He) in H. exact H.
+  rewrite (kdata_spec ns (proj1 (proj2 (proj2 Hcanon))) w el d e Hn He) in H. exact H.
 Qed.
 
 Lemma Hcan : opt = true -> NoDup (dids ns) /\ NoDup (sids ns).
-Proof. intros _. destruct Hcanon as (H1 & _ & H3). split; [rewrite H3; apply seq_NoDup|exact H1]. Qed.
+Proof. intros _. destruct Hcanon as (H1 & _ & H3 & _). split; [rewrite H3; apply seq_NoDup|exact H1]. Qed.
 
 Lemma Hdist : syms_distinct ns.
 Proof. eapply canonical_distinct; eauto. Qed.
@@ -179,7 +179,7 @@ Proof.
   - intros i F. rewrite H4 in F. cbn [init_sstate fz_instr] in F. rewrite flag_repeat_false in F. discriminate.
   - intros d F. rewrite H5 in F. cbn [init_sstate fz_data] in F. rewrite flag_repeat_false in F. discriminate.
   - intros s F. destruct (P1 s F) as [Ho (e & v & c & G1 & G2 & _)]. split; [exact Ho|]. eauto.
-  - rewrite H5. cbn [init_sstate fz_data]. rewrite repeat_length. symmetry. rewrite Q3. reflexivity.
+  - unfold lens. rewrite H4, H5. cbn [init_sstate fz_instr fz_data]. rewrite !repeat_length, Q2, Q3. split; [exact P2|split; reflexivity].
 Qed.
 End Top.
 
@@ -268,7 +268,7 @@ Proof.
   - destruct (Hb b) as [ET EF]. rewrite ET, EF. clear Hb ET EF.
     set (K := known_info true true defs names ns st0) in *.
     assert (Hcan : true = true -> NoDup (dids ns) /\ NoDup (sids ns)).
-    { intros _. destruct Hcanon as (H1 & _ & H3). split; [rewrite H3; apply seq_NoDup|exact H1]. }
+    { intros _. destruct Hcanon as (H1 & _ & H3 & _). split; [rewrite H3; apply seq_NoDup|exact H1]. }
     destruct (loop_cases names defs ns K Hres HKs HKd true Hok Hcan b x1 HI) as [L|O].
     + left. apply lockstep_out. exact L.
     + pose proof (canonical_distinct _ _ Hcanon) as Hd.
